@@ -2,7 +2,7 @@
    Only theorem statements, closed by [exact <lemma>], non-vacuity Examples and
    Print Assumptions.  [fs] is the torrent's file list (path id, size), [L] the
    piece length; offsets are prefix sums of the sizes ([offset_of]). *)
-From Torf Require Import Base Extracted Geometry Stream GeometryProofs IterProofs GetPieceProofs.
+From Torf Require Import Base Extracted Geometry Stream GeometryProofs IterProofs GetPieceProofs IterProofs IterDamage VerifyPieceProofs.
 Open Scope Z_scope.
 
 Theorem C11_file_position : forall fs k f,
@@ -144,6 +144,30 @@ Theorem C11_get_piece : forall d fs L i h,
   fst (get_piece d h fs L i) = Ok (firstn (Z.to_nat L) (skipn (Z.to_nat (i * L)) (stream_of d fs))).
 Proof. exact get_piece_intact. Qed.
 Print Assumptions C11_get_piece.
+
+(* the hash of the piece read by index, and the hash check: positive exactly when the hash of the piece's bytes is
+   the stored hash (any hash function H; any handle table) *)
+Theorem C11_get_piece_hash : forall (H : bytes -> bytes) d fs L i h,
+  allpos fs -> NoDup fs -> intact d fs -> 0 < L -> 0 <= i -> i * L < total_size fs ->
+  fst (get_piece_hash H d h fs L i) = Ok (Some (H (piece_bytes d fs L i))).
+Proof. exact get_piece_hash_intact. Qed.
+Print Assumptions C11_get_piece_hash.
+
+Theorem C11_verify_piece : forall (H : bytes -> bytes) d fs L hashes i h,
+  allpos fs -> NoDup fs -> intact d fs -> 0 < L -> 0 <= i -> i * L < total_size fs -> i < zlen hashes ->
+  exists b, fst (verify_piece H d h fs L hashes i) = Ok (Some b) /\
+            (b = true <-> H (piece_bytes d fs L i) = nth (Z.to_nat i) hashes []).
+Proof. exact verify_piece_intact. Qed.
+Print Assumptions C11_verify_piece.
+
+(* reading a piece by index returns what sequential iteration yields at that position *)
+Theorem C11_random_access_is_sequential : forall d fs L i h h',
+  allpos fs -> NoDup fs -> intact d fs -> 0 < L -> 0 <= i -> i * L < total_size fs ->
+  exists items,
+    iter_pieces d h' fs L = Ok items /\
+    exists it, nth_error items (Z.to_nat i) = Some it /\ res_map Some (fst (get_piece d h fs L i)) = Ok (piece_of it).
+Proof. exact get_piece_is_iter_piece. Qed.
+Print Assumptions C11_random_access_is_sequential.
 
 (* non-vacuity for C11_get_piece: three files, piece length 4, the last (short) piece *)
 Example C11_get_piece_example :
